@@ -1,3 +1,4 @@
+import Toodee.Spec.OpsSpec
 import Toodee.Properties.C16
 import Toodee.Properties.C13
 /-
@@ -9,9 +10,6 @@ import Toodee.Properties.C13
 -/
 namespace Toodee
 variable {α : Type}
-
-/-- new row `j` is old row `p[j]`, in every column -/
-def sortRowsG (p : List Nat) : Nat × Nat → Nat × Nat := fun cr => (cr.1, p.getD cr.2 cr.2)
 
 /-- what the implementor's `swap_rows` must satisfy (proved for all three implementors in C13) -/
 def SwapRowsSpec (v : VW) (n : Nat) (swapRows : List α → Nat → Nat → Res (List α)) : Prop :=
